@@ -785,7 +785,8 @@ def gen_trim_config(rng, max_m):
         if cfg["noise"] is None or rng.random() < 0.5:
             cfg["noise"] = {"indistinguishability": rng.choice([0.5, 0.9, 0.99, 0.999]),
                             "transmittance": rng.choice([1.0, 0.9, 0.5, 0.999]),
-                            "g2": rng.choice([0.0, 0.0, 0.01, 0.1]) if sum(cfg["user"]) <= 2 else 0.0}
+                            "g2": (rng.choice([0.0, 0.0, 0.01, 0.1])
+                                   if sum(cfg["user"]) + sum(v for _, v in cfg["heralds"]) <= 2 else 0.0)}
             if cfg["filter"] is None:
                 cfg["filter"] = rng.randint(0, sum(cfg["user"]))
     cfg.pop("prev", None)
@@ -1705,6 +1706,9 @@ def shape_branches(chk, cfg):
 
 
 def handle(chk, cfg, do_shrink=True):
+    if os.environ.get("VERIF_C04_TRACE"):                    # (development switch) last configuration started
+        with open(os.environ["VERIF_C04_TRACE"], "w") as f:
+            json.dump({"config": cfg}, f)
     if cfg.get("kind") == "session":
         return handle_session(chk, cfg, do_shrink)
     hs = sorted(list(h) for h in cfg["heralds"])
